@@ -92,7 +92,7 @@ LTiny == Language("org.verif.tiny",
           Def("d", Disabled, Ovr(<< St("s") >>)) >>),
      Asset("Ua", "Ta", <<>>, << Or("s", Ext(<< Col(F("ls"), St("s")) >>)) >>) >>,
   << AssocMany("Lk", "Ta", "ls", "rs", "Ta"),
-     Assoc("Uu", "Ua", "ul", 0, 1, 0, 2, "ur", "Ua") >>)
+     Assoc("uu", "Ua", "ul", 0, 1, 0, 2, "ur", "Ua") >>)
 
 (* --- a single type: every multiplicity form on reflexive associations ------- *)
 LOne == Language("org.verif.one",
